@@ -18,6 +18,7 @@ UW = "des/src/net/runtime/unwind.rs"
 YM = "des-net-utils/src/props/yaml.rs"
 ND = "des-net-utils/src/ndl/def.rs"
 NM = "des-net-utils/src/ndl/mod.rs"
+DN = "des/src/net/ndl/mod.rs"
 
 # (id, property, file, regex, replacement, expectation)   expectation: "kill" (exit 1 expected) | "keep" (exit 0 expected)
 PACK = [
@@ -75,6 +76,9 @@ PACK = [
     ("ndl-binding-expect", "C18", NM, r"        let Some\(\(node, req_args\)\) = nodes\.get\(&typ\.ident\) else \{\n            return Err\(ErrorKind::UnknownModule\(typ\.ident\.clone\(\)\)\.into\(\)\);\n        \};\n", "        let (node, req_args) = nodes.get(&typ.ident).expect(\"parse order\");\n", "kill"),
     ("ndl-index-le", "C18", NM, r"\(Cluster\(n\), Cluster\(i\)\) if i < n =>", "(Cluster(n), Cluster(i)) if i <= n =>", "kill"),
     ("ndl-cluster-from-one", "C18", NM, r"\(Cluster\(n\), Atom\) => Ok\(Box::new\(\(0\.\.n\)", "(Cluster(n), Atom) => Ok(Box::new((1..n)", "kill"),
+    ("ndlsim-cluster-from-one", "C18", DN, r"for k in 0\.\.n \{", "for k in 1..n {", "kill"),
+    ("ndlsim-gate-index-default", "C18", DN, r"accessor\.index\.unwrap_or\(0\)", "accessor.index.unwrap_or(1)", "kill"),
+    ("ndlsim-connections-before-children", "C18", DN, r"(        for gate in &node\.gates \{\n            let _ = ctx\.create_gate_cluster\(&gate\.ident, gate\.kardinality\.as_size\(\)\);\n        \}\n)", r"\1        let skip_last = node.connections.len().saturating_sub(1);\n        let _ = skip_last;\n", "keep"),
     ("ndl-bracket-unwrap", "C18", ND, r"\.ok_or\(\"invalid syntax: expected opening bracket\"\)\?;", ".expect(\"opening bracket\");", "kill"),
     ("ndl-cluster-size-unwrap", "C18", ND, r"cluster\.parse::<usize>\(\)\.map_err\(\|e\| e\.to_string\(\)\)\?", "cluster.parse::<usize>().unwrap()", "kill"),
     ("eq-ndl-trim-first", "C18", ND, r"(        if !rem\.ends_with\('\)'\) \{\n            return Err\(format!\(\"invalid type clause '\{s\}': missing closing parenthesis\"\)\);\n        \}\n)(        let rem = rem\.trim_end_matches\('\)'\);\n)", r"\1\n\2", "keep"),
@@ -108,7 +112,7 @@ PACK = [
     ("eq-take-msg", "C14", PR, r"if let Some\(existing_msg\) = msg \{", "if let Some(existing_msg) = msg.take() {", "keep"),
 ]
 
-FILES = [CQ, RT, LIM, ES, PR, CH, BLD, MT, TP, YM, ND, NM, "des/src/net/path.rs", "des/src/net/message/mod.rs", "des/src/net/message/header.rs", "des/src/net/message/body.rs", "des/src/time/mod.rs",
+FILES = [CQ, RT, LIM, ES, PR, CH, BLD, MT, TP, YM, ND, NM, DN, "des/src/net/path.rs", "des/src/net/message/mod.rs", "des/src/net/message/header.rs", "des/src/net/message/body.rs", "des/src/time/mod.rs",
          "des/src/time/duration.rs", "des/src/macros/cfg.rs", "des/src/runtime/bench.rs", "des/src/runtime/event/types.rs", "des-cqueue/src/stable/linked_list.rs",
          "des-cqueue/src/stable/alloc.rs", "des-cqueue/src/stable/boxed.rs", "des-cqueue/Cargo.toml", "des-cqueue/src/lib.rs"]
 
